@@ -9,7 +9,6 @@ NA = {
  "C02": "same as C01; the deciding facts are the coordinate semantics of splitUniform/mergeRanks/swizzleRanks in fibertree",
  "C03": "same as C01; splitEqual/splitNonUniform/flattenRanks/getPayload semantics live in fibertree",
  "C04": "same as C01; project(trans_fn, interval), halo and interval tiling are fibertree arithmetic",
- "C08": "quantifies over interpreter hash seeds and asserts run-time equivalence of the variant texts; not a contract on one call (proved contracts already hold for every set-iteration order)",
  "C11": "equality of computed tensors between metrics and plain mode is execution semantics of the emitted program",
 }
 NOT_BUILT = "within reach of the technique (DESIGN section 4) but the contracts are not built yet in this session; not claimed"
